@@ -740,6 +740,12 @@ fn adt_json<'tcx>(tcx: TyCtxt<'tcx>, did: DefId, work: &mut Vec<DefId>) -> J {
         let mut fs = Vec::new();
         for f in v.fields.iter() {
             let fty = tcx.type_of(f.did).instantiate_identity().skip_norm_wip();
+            // evaluate constants hidden behind type aliases (`Vec<_, MAX_CREDENTIAL_COUNT_IN_LIST>`)
+            let env = ty::TypingEnv::post_analysis(tcx, did);
+            let fty = match tcx.try_normalize_erasing_regions(env, ty::Unnormalized::new_wip(fty)) {
+                Ok(t) => t,
+                Err(_) => fty,
+            };
             collect_adts(tcx, fty, work);
             fs.push(
                 J::obj()
